@@ -582,6 +582,10 @@ func DrawSrc(t *rapid.T, format string, maxData int, origins ...string) Src {
 			s.NChunks = rapid.IntRange(0, 5).Draw(t, "nchunks")
 			s.Check = rapid.SampledFrom([]byte{0, 1, 4, 10}).Draw(t, "check")
 			s.DictCode = byte(rapid.SampledFrom([]int{0, 0, 1, 2, 5, 8}).Draw(t, "dictcode"))
+			if maxData > 100000 && rapid.IntRange(0, 40).Draw(t, "bigdict") == 0 {
+				// large declared dictionaries (up to 64 MiB): the reader allocates them
+				s.DictCode = byte(rapid.SampledFrom([]int{16, 21, 24, 27, 28}).Draw(t, "bigdictcode"))
+			}
 			s.Sizes = rapid.IntRange(0, 3).Draw(t, "sizes")
 			s.ExtraPad = rapid.SampledFrom([]int{0, 0, 1, 3}).Draw(t, "extrapad")
 		case "lzma2":
